@@ -128,6 +128,12 @@ func valueArg(st *plan.Step) interface{} {
 	if hasOpt(st, "cyclic") {
 		return makeCyclic(st.V)
 	}
+	if hasOpt(st, "tiny") {
+		// values whose encodings are short constants (candidates for being
+		// served from shared literals): nil, booleans, zero, empty containers
+		tiny := []interface{}{nil, true, false, 0, "", []int{}, map[string]int{}, struct{}{}, (*int)(nil), []interface{}{}, 0.0, json.Number("0")}
+		return tiny[int(uint64(st.V)%uint64(len(tiny)))]
+	}
 	if ti.Type().Kind() == reflect.Interface {
 		if v.IsNil() {
 			return nil
@@ -432,6 +438,12 @@ func (ss *sessState) doStep(i int, st *plan.Step) (obs string) {
 			err = e.EncodeWithOption(v, opts...)
 		}
 		runtime.KeepAlive(v)
+		if len(WriteBufferViolations) > 0 {
+			for _, d := range WriteBufferViolations {
+				ss.viols = append(ss.viols, plan.Violation{Oracle: "aliasing", Where: fmt.Sprintf("session %s step %d (%s)", ss.s.ID, i, st.Op), Sig: "aliasing|write_buffer_changed", Detail: d})
+			}
+			WriteBufferViolations = nil
+		}
 		o := fmt.Sprintf("%s err=%q wrote=%s", st.Op, normErr(err), canonOut(st, w.Buf[before:]))
 		if dbg != nil {
 			o += " dbg=" + debugSummary(dbg.Buf)
@@ -445,6 +457,12 @@ func (ss *sessState) doStep(i int, st *plan.Step) (obs string) {
 		p := reflect.New(ti.Type())
 		if hasOpt(st, "prefill") {
 			p.Elem().Set(MakeValue(ti, st.V))
+		}
+		if hasOpt(st, "prefill_ptr") && ti.Type().Kind() == reflect.Interface {
+			// an interface{} destination that already holds a non-nil pointer:
+			// the document is decoded into what it points to
+			pre := []interface{}{&Small{A: 1}, new(int), &Leaf{L1: 2}, &[]int{1}, &map[string]int{"k": 1}, new(string), &Inner{X: 3}, new(float64), &Tagged{Name: "t"}, &Wide{A: 4}}
+			p.Elem().Set(reflect.ValueOf(pre[int(uint64(st.V)%uint64(len(pre)))]))
 		}
 		var err error
 		switch st.Op {
